@@ -64,6 +64,10 @@ def run_program(program, check=None, keep_dep=False):
         res["steps"] = log.step
         res["event_counts"] = dict(log.counts)
         res["digest"] = log.digest()
+        from .executor import _digestable
+
+        res["op_out_digests"] = [tape.digest_obj(_digestable(r["out"]) if r["raised"] is None else {"raised": r["raised"][-1][0]}) for r in dep.history]
+        res["plan_digest"] = tape.digest_obj([program["config"], program["ops"], res["schedule"]])
         stats = {}
         distinct = set()
         for pl in dep.pools:
